@@ -43,12 +43,19 @@ DEBUG_NAMES = ('.debug_info', '.debug_aranges', '.debug_abbrev', '.debug_str', '
 # ---------------------------------------------------------------------------
 # containers
 
-def chdr_section(cls, le, data, level, ch_size=None):
-    return W.enc_chdr(cls, le, 1, len(data) if ch_size is None else ch_size, 1) + zlib.compress(data, level)
+def deflate(data, level, wbits=15, strategy=0):
+    """a zlib stream (RFC 1950): any level, any window size 2^9..2^15 (the first byte of the stream is 0x78 only for the largest), any
+    strategy - whatever an inflater with the default window reads back to the same bytes"""
+    co = zlib.compressobj(level, zlib.DEFLATED, wbits, 8, strategy)
+    return co.compress(data) + co.flush()
 
 
-def zdebug_section(data, level, size=None):
-    return b'ZLIB' + struct.pack('>Q', len(data) if size is None else size) + zlib.compress(data, level)
+def chdr_section(cls, le, data, level, ch_size=None, wbits=15, strategy=0):
+    return W.enc_chdr(cls, le, 1, len(data) if ch_size is None else ch_size, 1) + deflate(data, level, wbits, strategy)
+
+
+def zdebug_section(data, level, size=None, wbits=15, strategy=0):
+    return b'ZLIB' + struct.pack('>Q', len(data) if size is None else size) + deflate(data, level, wbits, strategy)
 
 
 def build_container(payload, meta, tr, extra_sections=()):
@@ -101,7 +108,7 @@ def _build_container(payload, meta, tr, extra_sections=()):
         secs = []
         for i, (n, d) in enumerate(payload.items()):
             if chosen(n, i):
-                secs.append((n, chdr_section(cls, le, d, tr.get('level', 6), tr.get('bad_size') and max(0, len(d) + tr['bad_size']) if (n == '.debug_info' or not tr.get('bad_size')) else None), 0x800))
+                secs.append((n, chdr_section(cls, le, d, tr.get('level', 6), tr.get('bad_size') and max(0, len(d) + tr['bad_size']) if (n == '.debug_info' or not tr.get('bad_size')) else None, tr.get('wbits', 15), tr.get('strategy', 0)), 0x800))
             else:
                 secs.append((n, d, 0))
         return {'main': elf(secs + list(extra_sections)), 'files': {}}
@@ -111,7 +118,7 @@ def _build_container(payload, meta, tr, extra_sections=()):
             if n == '.eh_frame':
                 secs.append((n, d, 0))
             elif which == 'all' or (n == '.debug_info' and not tr.get('info_plain')) or (n != '.debug_info' and chosen(n, i)):
-                secs.append(('.z' + n[1:], zdebug_section(d, tr.get('level', 6), tr.get('bad_size') and max(0, len(d) + tr['bad_size']) if (n == '.debug_info' or not tr.get('bad_size')) else None), 0))
+                secs.append(('.z' + n[1:], zdebug_section(d, tr.get('level', 6), tr.get('bad_size') and max(0, len(d) + tr['bad_size']) if (n == '.debug_info' or not tr.get('bad_size')) else None, tr.get('wbits', 15), tr.get('strategy', 0)), 0))
             else:
                 secs.append((n, d, 0))       # mixed naming (incompressible section left alone)
         return {'main': elf(secs + list(extra_sections)), 'files': {}}
@@ -497,7 +504,8 @@ def rand_transforms(ch, allow_link=True):
     for _ in range(ch.int(3, 5)):
         t = ch.choice(['gabi', 'gabi', 'zdebug', 'link', 'link'] if allow_link else ['gabi', 'zdebug'])
         if t == 'gabi':
-            out.append({'t': 'gabi', 'which': ch.choice(['all', 'all', 'some']), 'phase': ch.int(0, 1), 'level': ch.int(0, 9), 'at_eof': ch.bool(0.3)})
+            out.append({'t': 'gabi', 'which': ch.choice(['all', 'all', 'some']), 'phase': ch.int(0, 1), 'level': ch.int(0, 9), 'at_eof': ch.bool(0.3),
+                        'wbits': ch.choice([15, 15, 9, 10, 12, 14]), 'strategy': ch.choice([0, 0, 1, 2, 3, 4])})
             if ch.bool(0.25):
                 out[-1]['stray_link'] = ch.choice(['ok', 'badcrc'])
         elif t == 'zdebug':
@@ -505,7 +513,7 @@ def rand_transforms(ch, allow_link=True):
                 # mixed naming: GNU tools rename only the sections that shrink (either .debug_info or its siblings may stay plain)
                 out.append({'t': 'zdebug', 'which': 'some', 'phase': ch.int(0, 1), 'info_plain': ch.bool(), 'level': ch.int(0, 9)})
             else:
-                out.append({'t': 'zdebug', 'which': 'all', 'level': ch.int(0, 9), 'at_eof': ch.bool(0.3)})
+                out.append({'t': 'zdebug', 'which': 'all', 'level': ch.int(0, 9), 'at_eof': ch.bool(0.3), 'wbits': ch.choice([15, 15, 9, 11, 13]), 'strategy': ch.choice([0, 0, 2, 4])})
             if ch.bool(0.35):
                 out[-1]['stray_link'] = ch.choice(['ok', 'badcrc'])
         else:
@@ -579,6 +587,7 @@ def sweep(tier):
     files = corpus_files()
     fixed = [{'t': 'zdebug', 'which': 'some', 'phase': 0, 'info_plain': True, 'level': 6}, {'t': 'zdebug', 'which': 'some', 'phase': 1, 'level': 6},
              {'t': 'gabi', 'which': 'all', 'level': 6}, {'t': 'gabi', 'which': 'some', 'phase': 1, 'level': 1, 'at_eof': True}, {'t': 'zdebug', 'which': 'all', 'level': 9},
+             {'t': 'gabi', 'which': 'all', 'level': 6, 'wbits': 9}, {'t': 'gabi', 'which': 'all', 'level': 9, 'wbits': 12, 'strategy': 2}, {'t': 'zdebug', 'which': 'all', 'level': 6, 'wbits': 10},
              {'t': 'link', 'crc_ok': True, 'inner': {'t': 'plain'}, 'fname': b'f.debug', 'keep_eh': True},
              {'t': 'link', 'crc_ok': True, 'inner': {'t': 'gabi', 'which': 'all', 'level': 3}, 'fname': b'abc'},
              {'t': 'link', 'crc_ok': False, 'crc_xor': 1, 'fname': b'f.debug'},
